@@ -483,7 +483,7 @@ def compose_text(mother, daughters, tops, sublines, distract, option, layout, or
 def c17_cases(tier="quick", seed=0):
     """Yield dict(label, text).  Exhaustive core: for every event type, every selection of 1 or 2 top lines
     (plus sliding windows of 3 and 4), every vector of alternative counts 0..3 for the first 2 bare names of
-    the selection (first name only for selections of 2 lines); option, layout, order and table variants are cycled so that every variant value occurs
+    the selection (first name only for selections of 2 or 4 lines); option, layout, order and table variants are cycled so that every variant value occurs
     with every event type.  thorough: alternative counts for up to 3 names, and every option variant for every
     selection of 1, 3 or 4 lines."""
     for et in c17_event_types():
@@ -500,7 +500,7 @@ def c17_cases(tier="quick", seed=0):
                 for b in bare_names(t):
                     if b in et["subs"] and b not in direct:
                         direct.append(b)
-            nfull = 3 if tier == "thorough" else (1 if len(s) == 2 else 2)
+            nfull = 3 if tier == "thorough" else (1 if len(s) in (2, 4) else 2)
             full, rest = direct[:nfull], direct[nfull:]
             others = [k for k in et["subs"] if k not in direct]
             kvecs = list(itertools.product(range(4), repeat=len(full))) or [()]
